@@ -756,5 +756,6 @@ func TestVerif_C03(t *testing.T) {
 		"the manifest of the interrupted first commit is taken as observed right after that commit returned: ChunkJournal.Update writes it (flushToBackingManifest) before commitRootHash flushes the journal, and nothing rewrites it in between")
 	defer rec2.Write(t)
 	vh.Check(t, "first_commit", 6, 6, func(rt *rapid.T) { c03FirstCommitCase(rt, rec2, base) })
+	c03LargeCheck(t, base)
 	_ = strings.Join
 }
